@@ -507,7 +507,7 @@ class MarkdownRenderer(BaseRenderer):
                 is_first_line = False
             else:
                 prefixed = following_line_prefix + line
-            yield prefixed if not prefixed.isspace() else ""
+            yield prefixed if line or not prefixed.isspace() else ""
 
     def table_row_to_text(self, row) -> Sequence[str]:
         """
